@@ -170,6 +170,63 @@ func (c *ctxT) c09CallProg(fd *ast.FuncDecl) []string {
 	return steps
 }
 
+// c09CreateProg: the statements of (*EVM).create.  Statements that only touch EVM-side account state (nonce bump of the
+// creator before the snapshot, access list, CreateAccount / nonce of the new account after it), the collision test and
+// the three post-checks on the returned runtime code (size, 0xEF, deposit gas — all vacuous for a constructor that
+// returns no code, which is what the harness deploys) are `neutral`; everything else must be one of the known steps.
+func (c *ctxT) c09CreateProg(fd *ast.FuncDecl) []string {
+	var steps []string
+	neutralPrefixes := []string{"nonce := evm.StateDB.GetNonce(caller.Address())", "if nonce+1 < nonce {", "evm.StateDB.SetNonce(caller.Address(), nonce+1)",
+		"if evm.chainRules.IsBerlin { evm.StateDB.AddAddressToAccessList(address) }", "contractHash := evm.StateDB.GetCodeHash(address)",
+		"if evm.StateDB.GetNonce(address) != 0 ||", "evm.StateDB.CreateAccount(address)", "if evm.chainRules.IsEIP158 { evm.StateDB.SetNonce(address, 1) }",
+		"contract := NewContract(caller, AccountRef(address), value, gas)", "contract.SetCodeOptionalHash(&address, codeAndHash)", "if evm.Config.Tracer != nil {",
+		"if err == nil && evm.chainRules.IsEIP158 && len(ret) > params.MaxCodeSize {", "if err == nil && len(ret) >= 1 && ret[0] == 0xEF && evm.chainRules.IsLondon {",
+		"if err == nil { createDataGas := uint64(len(ret)) * params.CreateDataGas"}
+	for _, st := range fd.Body.List {
+		src := c09flat(c.src(st))
+		is, isIf := st.(*ast.IfStmt)
+		switch {
+		case isIf && strings.HasPrefix(c09flat(c.src(is.Cond)), "evm.depth > int(params.CallCreateDepth)") && strings.Contains(src, "return nil, common.Address{}, gas, ErrDepth"):
+			steps = append(steps, ".depthCheck")
+		case isIf && c09flat(c.src(is.Cond)) == "!evm.Context.CanTransfer(evm.StateDB, caller.Address(), value)" && strings.Contains(src, "return nil, common.Address{}, gas, ErrInsufficientBalance") && is.Else == nil:
+			steps = append(steps, ".fundCheck")
+		case src == "snapshot := evm.StateDB.Snapshot()":
+			steps = append(steps, ".snapshot")
+		case src == "evm.Context.Transfer(evm.StateDB, caller.Address(), address, value)":
+			steps = append(steps, ".transfer")
+		case src == "ret, err := evm.interpreter.Run(contract, nil, false)":
+			steps = append(steps, ".runCallee")
+		case isIf && c09flat(c.src(is.Cond)) == "err != nil && (evm.chainRules.IsHomestead || err != ErrCodeStoreOutOfGas)" && is.Else == nil:
+			for _, b := range is.Body.List {
+				bs := c09flat(c.src(b))
+				switch bs {
+				case "evm.StateDB.RevertToSnapshot(snapshot)":
+					steps = append(steps, ".onErr .revert")
+				case "if err != ErrExecutionReverted { contract.UseGas(contract.Gas) }":
+					steps = append(steps, ".onErr .burnGasUnlessReverted")
+				default:
+					steps = append(steps, ".onErr (.unknown "+leanStr(bs)+")")
+				}
+			}
+		case src == "return ret, address, contract.Gas, err":
+			steps = append(steps, ".ret")
+		default:
+			neutral := false
+			for _, p := range neutralPrefixes {
+				if strings.HasPrefix(src, p) {
+					neutral = true
+				}
+			}
+			if neutral {
+				steps = append(steps, ".neutral "+leanStr(firstWords(src, 6)))
+			} else {
+				steps = append(steps, ".unknown "+leanStr(src))
+			}
+		}
+	}
+	return steps
+}
+
 func firstWords(s string, n int) string {
 	f := strings.Fields(s)
 	if len(f) > n {
@@ -279,6 +336,8 @@ inductive CStep
 				switch fd.Name.Name {
 				case "Call", "CallCode", "DelegateCall", "StaticCall":
 					progs[fd.Name.Name] = c.c09CallProg(fd)
+				case "create":
+					progs["Create"] = c.c09CreateProg(fd)
 				}
 			}
 		}
@@ -295,7 +354,7 @@ inductive CStep
 			}
 		}
 	}
-	for _, k := range []string{"Call", "CallCode", "DelegateCall", "StaticCall"} {
+	for _, k := range []string{"Call", "CallCode", "DelegateCall", "StaticCall", "Create"} {
 		fmt.Fprintf(&sb, "/-- go-ethereum fork core/vm/evm.go (*EVM).%s, statement by statement -/\ndef prog%s : List CStep := %s\n\n", k, k, leanList(progs[k]))
 	}
 	var fs []string
